@@ -21,7 +21,12 @@ import partitura.performance as P
 from partitura.io.exportmusicxml import save_musicxml
 from partitura.io.exportmidi import save_score_midi, save_performance_midi
 from partitura.io.exportmatch import save_match
-from partitura.utils.music import compute_pianoroll, transpose
+from partitura.io.exportmei import save_mei
+from partitura.io.exportkern import save_kern
+from partitura.io.exportaudio import save_wav
+from partitura.io.importmusicxml import load_musicxml
+from partitura.utils.music import (compute_pianoroll, compute_pitch_class_pianoroll, transpose, note_array_from_note_list,
+                                   note_array_from_part_list, ensure_notearray, slice_notearray_by_time)
 from partitura.musicanalysis import estimate_key, estimate_spelling, estimate_voices
 from pbt.core import Outcome, SubCheck, SutRaised, call
 from pbt.gen import scorespec as G
@@ -41,6 +46,14 @@ PROFILE = G.profile(max_bars=3, max_voices=2, max_staves=2, midbar_changes=False
 SCORE_OPS = ["musicxml", "score_midi", "note_array", "part_note_array", "rest_array", "pianoroll", "maps", "pretty",
              "unfold_max", "unfold_min", "iter_unfolded", "spelling", "voices", "key", "transpose", "len_index", "save_match", "nested_iter_score", "setitem_on_new_score"]
 PERF_OPS = ["perf_midi", "perf_note_array", "perf_len_index", "nested_iter_perf", "loose_midi", "loose_note_array"]
+# entry points added by the generator audit (docs/audit/C20.md): other argument types of the exporters, the exporters and
+# views the histories did not contain, estimators on other argument types, array arguments, path computation
+AUDIT_SCORE_OPS = ["musicxml_arg", "score_midi_arg", "save_mei", "save_kern", "save_wav", "note_list_array", "part_list_array", "ensure_notearray",
+                   "array_views", "pianoroll_score", "estimators_other_args", "paths", "contains_zip", "save_match_args", "object_views"]
+AUDIT_PERF_OPS = ["perf_pianoroll", "perf_wav", "perf_analysis", "perf_midi_arg"]
+# what the argument of the history is: the freshly built score, or the result of another operation on it
+START_FROM = ["built", "built", "built", "deepcopy", "transposed", "unfolded", "musicxml-loaded"]
+SEGMENT_OPS = ("unfold_max", "unfold_min", "iter_unfolded", "save_match", "save_match_args", "paths")
 
 
 MARKS = ["pedal", "pedal", "pedal-line", "loud", "cresc", "dim", "words", "tempo-dir", "rit", "tempo", "fermata", "octave"]
@@ -97,13 +110,14 @@ def history(draw, tier):
         ps = dict(ps, c20_marks=marks)
         parts.append(ps)
     maxlen = 10 if tier == "quick" else 22
-    names = SCORE_OPS + PERF_OPS + ["iter_new", "iter_new", "iter_next", "iter_next", "iter_next", "iter_next", "piter_new", "piter_new", "piter_next", "piter_next", "piter_next"]
+    names = SCORE_OPS + PERF_OPS + AUDIT_SCORE_OPS + AUDIT_PERF_OPS + ["iter_new", "iter_new", "iter_next", "iter_next", "iter_next", "iter_next", "piter_new", "piter_new", "piter_next", "piter_next", "piter_next"]
     op = st.tuples(st.sampled_from(names), st.integers(0, 5), st.integers(0, 7))
     return {
         "parts": parts,
         "groups": draw(st.booleans()) and n >= 2,
         "ops": draw(st.lists(op, min_size=4, max_size=maxlen)),
         "two_pparts": draw(st.booleans()),
+        "start_from": draw(st.sampled_from(START_FROM)),
     }
 
 
@@ -131,21 +145,41 @@ def _val(v):
     return repr(v)
 
 
-def part_fingerprint(p):
+def part_fingerprint(p, skip_segments=False):
+    """skip_segments: the same fingerprint as if no Segment object were registered in the part - Segment objects, their
+    per-class listing buckets and the time points that hold nothing but Segments are left out, and the prev / next
+    links are taken over the remaining points."""
     fp = [("attrs", tuple(sorted((k, repr(_val(v))) for k, v in vars(p).items() if k not in SKIP_PART_ATTRS and k != "_points")))]
     pts = []
+
+    def bucket(table):
+        return tuple(sorted((cls.__name__, tuple(id(o) for o in oo)) for cls, oo in table.items()
+                            if len(oo) and not (skip_segments and issubclass(cls, S.Segment))))
+
+    kept = []
     for tp in p._points:
-        st_ = tuple(sorted((cls.__name__, tuple(id(o) for o in oo)) for cls, oo in tp.starting_objects.items() if len(oo)))
-        en_ = tuple(sorted((cls.__name__, tuple(id(o) for o in oo)) for cls, oo in tp.ending_objects.items() if len(oo)))
-        pts.append((id(tp), tp.t, tp.quarter, id(tp.prev) if tp.prev is not None else None, id(tp.next) if tp.next is not None else None, st_, en_))
+        st_, en_ = bucket(tp.starting_objects), bucket(tp.ending_objects)
+        if skip_segments and not st_ and not en_ and (any(len(oo) for oo in tp.starting_objects.values()) or any(len(oo) for oo in tp.ending_objects.values())):
+            continue  # exists only because of Segments
+        kept.append((tp, st_, en_))
+    for i, (tp, st_, en_) in enumerate(kept):
+        if skip_segments:
+            prev = id(kept[i - 1][0]) if i > 0 else None
+            nxt = id(kept[i + 1][0]) if i + 1 < len(kept) else None
+        else:
+            prev = id(tp.prev) if tp.prev is not None else None
+            nxt = id(tp.next) if tp.next is not None else None
+        pts.append((id(tp), tp.t, tp.quarter, prev, nxt, st_, en_))
         for oo in list(tp.starting_objects.values()) + list(tp.ending_objects.values()):
             for o in oo:
+                if skip_segments and isinstance(o, S.Segment):
+                    continue
                 fp.append((id(o), type(o).__name__, tuple(sorted((k, repr(_val(v))) for k, v in vars(o).items()))))
     fp.append(("points", tuple(pts)))
     return fp
 
 
-def score_fingerprint(score):
+def score_fingerprint(score, skip_segments=False):
     fp = [("score-attrs", tuple(sorted((k, repr(_val(v))) for k, v in vars(score).items() if k not in ("parts", "part_structure", "iter_idx"))))]
     fp.append(("parts", tuple(id(p) for p in score.parts)))
 
@@ -154,7 +188,7 @@ def score_fingerprint(score):
 
     fp.append(("structure", tree(score.part_structure)))
     for p in score.parts:
-        fp.append(("part", id(p), part_fingerprint(p)))
+        fp.append(("part", id(p), part_fingerprint(p, skip_segments)))
     return fp
 
 
@@ -196,6 +230,9 @@ def semantic(score_or_part):
 
 def _res_equal(a, b):
     if isinstance(a, np.ndarray) and isinstance(b, np.ndarray):
+        if a.dtype == object or b.dtype == object:
+            # arrays of Python objects (the text cells save_kern returns): compare the objects, not their addresses
+            return a.dtype == b.dtype and a.shape == b.shape and a.tolist() == b.tolist()
         return a.dtype == b.dtype and a.shape == b.shape and a.tobytes() == b.tobytes()
     if isinstance(a, (list, tuple)) and isinstance(b, (list, tuple)):
         return len(a) == len(b) and all(_res_equal(x, y) for x, y in zip(a, b))
@@ -256,8 +293,198 @@ def _protocol_consistent(r):
     return by_index == by_iter == [id(x) for x in r.parts]
 
 
-def run_op(name, a, b, score, perf, alignment, tmp, loose=None):
+def _unchanged_array(side, name, arr, copy):
+    """An array handed to a view / estimator must come back byte for byte."""
+    if not (arr.dtype == copy.dtype and arr.shape == copy.shape and arr.tobytes() == copy.tobytes()):
+        side.append(("array-argument-modified-by:" + name, {}))
+
+
+def _try(fn, *args, **kw):
+    """Result of an exporter whose output belongs to another property (MEI, kern: C19) or to none (audio synthesis): its text / array, or the error it raises
+    (the same call must then raise the same error again and still leave the argument alone)."""
+    try:
+        return call(fn, *args, **kw)
+    except SutRaised as e:
+        return ("raised", e.kind)
+
+
+def _cmp(x):
+    """Comparable form of sparse matrices, tuples of arrays, ..."""
+    if hasattr(x, "toarray"):
+        return x.toarray()
+    if isinstance(x, (tuple, list)):
+        return [_cmp(y) for y in x]
+    return x
+
+
+def run_audit_op(name, a, b, part, score, perf, alignment, tmp, loose, side):
+    """The entry points added by the generator audit; None if `name` is not one of them."""
+    has_notes = bool(part.notes)
+    if name == "musicxml_arg":
+        # the other documented argument types (Part, list of parts, list of parts and groups), returned or written to a file
+        kind = a % 3
+        arg = [part, list(score.parts), list(score.part_structure)][kind]
+        key = ("musicxml_arg", kind or id(part), b & 1)
+        if b & 1:
+            path = os.path.join(tmp, "x.musicxml")
+            call(save_musicxml, arg, path)
+            return key, open(path, "rb").read()
+        return key, call(save_musicxml, arg)
+    if name == "score_midi_arg":
+        kind = a % 3
+        arg = [part, list(score.parts), list(score.part_structure)][kind]
+        if not (has_notes if kind == 0 else any(p.notes for p in score.parts)):
+            return ("score_midi_arg", "skipped-no-notes", kind or id(part)), None
+        path = os.path.join(tmp, "sa.mid")
+        call(save_score_midi, arg, path, part_voice_assign_mode=b % 6)
+        return ("score_midi_arg", kind or id(part), b % 6), open(path, "rb").read()
+    if name == "save_mei":
+        arg = score if a & 1 else part
+        key = ("save_mei", (a & 1) or id(part), b & 1)
+        if b & 1:
+            path = os.path.join(tmp, "x.mei")
+            r = _try(save_mei, arg, path)
+            return key, (r, open(path, "rb").read() if os.path.exists(path) else None)
+        return key, _try(save_mei, arg)
+    if name == "save_kern":
+        if b % 3:
+            # save_kern costs about half a second: a third of the draws call it
+            return ("save_kern", "not-called"), None
+        arg = score if a & 1 else part
+        r = _try(save_kern, arg)
+        return ("save_kern", (a & 1) or id(part)), r
+    if name == "save_wav":
+        kind = a % 3
+        arg = [part, score, list(score.parts)][kind]
+        if not (has_notes if kind == 0 else any(p.notes for p in score.parts)):
+            return ("save_wav", "skipped-no-notes", kind or id(part)), None
+        kw = dict(samplerate=[2000, 4000][b & 1], bpm=[60, 120][(b >> 1) & 1], harmonic_dist=[None, 2][(b >> 2) & 1])
+        return ("save_wav", kind or id(part), tuple(sorted(kw.items(), key=repr))), _try(save_wav, arg, **kw)
+    if name == "note_list_array":
+        notes = list(part.notes_tied if a & 1 else part.notes)
+        if not notes:
+            return ("note_list_array", "skipped-no-notes", id(part)), None
+        ids = [id(x) for x in notes]
+        kw = dict(include_pitch_spelling=bool(b & 1), include_grace_notes=bool(b & 2), include_staff=bool(b & 4))
+        if a & 2:
+            kw.update(beat_map=part.beat_map, quarter_map=part.quarter_map, time_signature_map=part.time_signature_map, key_signature_map=part.key_signature_map)
+        r = call(note_array_from_note_list, notes, **kw)
+        if [id(x) for x in notes] != ids:
+            side.append(("note-list-argument-modified-by:note_list_array", {}))
+        return ("note_list_array", id(part), a & 3, b & 7), r
+    if name == "part_list_array":
+        plist = list(score.parts)
+        kw = dict(unique_id_per_part=bool(a & 1), include_pitch_spelling=bool(b & 1), include_staff=bool(b & 2), include_divs_per_quarter=bool(b & 4))
+        r = call(note_array_from_part_list, plist, **kw)
+        if [id(x) for x in plist] != [id(x) for x in score.parts]:
+            side.append(("part-list-argument-modified-by:part_list_array", {}))
+        return ("part_list_array", tuple(sorted(kw.items()))), r
+    if name == "ensure_notearray":
+        kind = a % 3
+        if kind == 2 and not has_notes:
+            return ("ensure_notearray", "skipped-no-notes", id(part)), None
+        if kind == 2:
+            na = call(part.note_array)
+            copy = na.copy()
+            r = call(ensure_notearray, na)
+            _unchanged_array(side, name, na, copy)
+            return ("ensure_notearray", 2, id(part)), r
+        arg = [part, score][kind]
+        kw = dict(include_pitch_spelling=bool(b & 1), include_time_signature=bool(b & 2))
+        return ("ensure_notearray", kind or id(part), tuple(sorted(kw.items()))), call(ensure_notearray, arg, **kw)
+    if name == "array_views":
+        # views of a note array: the array that is handed in must not change
+        if not has_notes:
+            return ("array_views", "skipped-no-notes", id(part)), None
+        na = call(part.note_array, include_pitch_spelling=True)
+        copy = na.copy()
+        on = float(na["onset_beat"].min())
+        off = float((na["onset_beat"] + na["duration_beat"]).max())
+        mid = on + (off - on) * [0.25, 0.5, 0.75][b % 3]
+        res = [_cmp(call(compute_pianoroll, na, time_div=[1, 4][a & 1], onset_only=bool(a & 2), return_idxs=bool(a & 4))),
+               _cmp(call(compute_pitch_class_pianoroll, na, time_div=[1, 4][a & 1], normalize=bool(b & 4))),
+               call(slice_notearray_by_time, na, on, mid, clip_onset_duration=bool(b & 1)),
+               call(slice_notearray_by_time, na, mid, off + 1, clip_onset_duration=bool(b & 1))]
+        for fn in (estimate_key, estimate_spelling, estimate_voices):
+            res.append(call(fn, na))
+        _unchanged_array(side, name, na, copy)
+        return ("array_views", id(part), a & 7, b & 7), res
+    if name == "pianoroll_score":
+        if not any(p.notes for p in score.parts):
+            return ("pianoroll_score", "skipped-no-notes"), None
+        kw = dict(time_div=[1, 2, 4, 8][b % 4], piano_range=bool(a & 1), binary=bool(a & 2), note_separation=bool(a & 4))
+        return ("pianoroll_score", tuple(sorted(kw.items()))), [_cmp(call(compute_pianoroll, score, **kw)), _cmp(call(compute_pitch_class_pianoroll, part if has_notes else score, time_div=kw["time_div"]))]
+    if name == "estimators_other_args":
+        # Score argument (merged internally) instead of a Part
+        if not any(p.notes for p in score.parts):
+            return ("estimators_other_args", "skipped-no-notes"), None
+        fn = [estimate_key, estimate_spelling, estimate_voices][a % 3]
+        arg = [score, list(score.parts)][b & 1]
+        return ("estimators_other_args", a % 3, b & 1), call(fn, arg)
+    if name == "paths":
+        paths = call(S.get_paths, part, no_repeats=bool(a & 1), all_repeats=bool(a & 2), ignore_leap_info=not (b & 1))
+        segs = call(lambda: part.segments)
+        return ("paths", id(part), a & 3, b & 1), ([str(x) for x in paths], sorted(str(sg.id) for sg in segs))
+    if name == "contains_zip":
+        parts = list(score.parts)
+        inside = call(lambda: [(p in score) for p in score])
+        zipped = call(lambda: [(id(x), id(y)) for x, y in zip(score, score)])
+        enum = call(lambda: [(i, id(x)) for i, x in enumerate(score) if x in score])
+        neg = call(lambda: score[-1]) is parts[-1] and call(lambda: score[-len(parts)]) is parts[0]
+        try:
+            call(lambda: score[len(parts)])
+            beyond = False
+        except SutRaised as e:
+            beyond = "IndexError" in e.kind
+        ok = inside == [True] * len(parts) and zipped == [(id(x), id(x)) for x in parts] and enum == [(i, id(x)) for i, x in enumerate(parts)] and neg and beyond
+        if not ok:
+            side.append(("container-protocol-inconsistent", dict(inside=inside, zipped_ok=zipped == [(id(x), id(x)) for x in parts], negative_index_ok=neg, index_beyond_len_raises=beyond)))
+        return ("contains_zip",), ok
+    if name == "save_match_args":
+        if not score.parts[0].notes or score.parts[0] is None:
+            return ("save_match_args", "skipped-empty-part"), None
+        path = os.path.join(tmp, "b.match")
+        pa = [perf, [perf.performedparts[0]], perf.performedparts[0]][a % 3]
+        sa = [score, [score.parts[0]], list(score.parts)][b % 3]
+        call(save_match, alignment, pa, sa, path, assume_unfolded=bool(b & 4))
+        return ("save_match_args", a % 3, b % 3, bool(b & 4)), open(path).read()
+    if name == "object_views":
+        # properties and look-ups that only read: lists of objects, counts, bounds
+        r = (tuple(id(x) for x in part.notes), tuple(id(x) for x in part.notes_tied), tuple(id(x) for x in part.rests), tuple(id(x) for x in part.measures),
+             tuple(id(x) for x in part.iter_all(S.GenericNote, include_subclasses=True)), call(lambda: part.number_of_staves), int(part.first_point.t), int(part.last_point.t),
+             call(lambda: [list(map(int, x)) for x in part.quarter_durations()]), tuple(id(x) for x in call(lambda: list(score.part_structure))),
+             call(str, part), call(repr, score) is not None)
+        return ("object_views", id(part)), r
+    if name == "perf_pianoroll":
+        arg = perf if a & 1 else perf.performedparts[0]
+        kw = dict(time_div=[10, 20][b & 1], onset_only=bool(b & 2), piano_range=bool(b & 4))
+        return ("perf_pianoroll", a & 1, tuple(sorted(kw.items()))), _cmp(call(compute_pianoroll, arg, **kw))
+    if name == "perf_wav":
+        arg = [perf, perf.performedparts[0], loose[0]][a % 3]
+        # (what the synthesiser computes, or that it fails for some note lengths, belongs to no part of this property)
+        return ("perf_wav", a % 3, b & 1), _try(save_wav, arg, samplerate=[2000, 4000][b & 1])
+    if name == "perf_analysis":
+        pp = perf.performedparts[0]
+        fn = [estimate_key, estimate_spelling, estimate_voices][a % 3]
+        if b & 1:
+            na = call(pp.note_array)
+            copy = na.copy()
+            r = call(fn, na)
+            _unchanged_array(side, name, na, copy)
+            return ("perf_analysis", a % 3, 1), r
+        return ("perf_analysis", a % 3, 0), call(fn, pp)
+    if name == "perf_midi_arg":
+        # a Performance handed over as the list of its parts / as its first part
+        arg = [list(perf.performedparts), perf.performedparts[0]][a & 1]
+        path = os.path.join(tmp, "pa.mid")
+        call(save_performance_midi, arg, path, ppq=[96, 480][b & 1], merge_tracks_save=bool(b & 2))
+        return ("perf_midi_arg", a & 1, b & 3), open(path, "rb").read()
+    return None
+
+
+def run_op(name, a, b, score, perf, alignment, tmp, loose=None, side=None):
     """Returns (result key, comparable result)."""
+    side = side if side is not None else []
     if name == "loose_midi":
         # a bare PerformedPart / a list of PerformedParts as argument (not wrapped in a Performance)
         arg = [loose[0], [loose[0]], [loose[1], loose[2]], list(loose), loose[2]][a % 5]
@@ -268,6 +495,9 @@ def run_op(name, a, b, score, perf, alignment, tmp, loose=None):
     if name == "loose_note_array":
         return ("loose_note_array", a % 3), call(loose[a % 3].note_array)
     part = score.parts[a % len(score.parts)]
+    r = run_audit_op(name, a, b, part, score, perf, alignment, tmp, loose, side)
+    if r is not None:
+        return r
     if name in ("pianoroll", "spelling", "voices", "key") and not part.notes:
         # these raise "Note array is empty" / are undefined for a part without notes (documented)
         return (name, "skipped-empty-part", id(part)), None
@@ -368,12 +598,49 @@ def oracle(spec):
         for (a, b) in ps.get("repeats", []):
             p.add(S.Repeat(), a, b)
         add_marks(p, ps.get("c20_marks", []))
+    start_from = spec.get("start_from", "built")
+    derived_ok = True
+    if start_from != "built":
+        # the argument of the history is the result of another operation on the built score
+        try:
+            if start_from == "deepcopy":
+                import copy as _copy
+                import sys as _sys
+                lim = _sys.getrecursionlimit()
+                _sys.setrecursionlimit(10000)
+                try:
+                    score = _copy.deepcopy(score)
+                finally:
+                    _sys.setrecursionlimit(lim)
+            elif start_from == "transposed":
+                score = call(transpose, score, S.Interval(2, "M"))
+            elif start_from == "unfolded":
+                score = call(S.unfold_part_maximal, score, update_ids=True)
+            elif start_from == "musicxml-loaded":
+                score = call(load_musicxml, io.BytesIO(call(save_musicxml, score)))
+        except SutRaised:
+            derived_ok = False  # what the deriving operation itself does is judged elsewhere (as an operation of a history, C03, C09, C16)
+        if not isinstance(score, S.Score) or not score.parts:
+            derived_ok = False
+        if not derived_ok:
+            o.excluded.append("argument-could-not-be-derived:" + start_from)
+            return o
+    o.cls("start-from:" + start_from)
     perf, alignment = build_perf(spec["parts"], score, spec["two_pparts"])
+    if start_from in ("unfolded", "musicxml-loaded"):
+        # note ids are not the generated ones any more: the alignment of the generated ids does not apply
+        alignment = None
     loose = build_loose()
     fp_s = score_fingerprint(score)
+    fp_s_noseg = score_fingerprint(score, skip_segments=True)
+    segments_reported = False
     fp_p = perf_fingerprint(perf)
     fp_l = perf_fingerprint(_Loose(loose))
     fp_al = repr(alignment)
+    alignment0 = [dict(x) for x in alignment] if alignment is not None else None
+    alignment_reported = False
+    alignment0 = [dict(x) for x in alignment] if alignment is not None else None
+    alignment_reported = False
     results = {}
     iters, piters = [], []  # [iterator, expected remaining ids]
     kinds = set()
@@ -405,8 +672,15 @@ def oracle(spec):
                     if exp is None:
                         pool.remove(rec)
                 else:
-                    key, res = run_op(name, a, b, score, perf, alignment, tmp, loose)
+                    if alignment is None and name in ("save_match", "save_match_args"):
+                        continue
+                    side = []
+                    key, res = run_op(name, a, b, score, perf, alignment, tmp, loose, side)
                     kinds.add(name)
+                    if side:
+                        for kind_, det in side:
+                            o.add(kind_, where=where, **det)
+                        break
                     if name in ("unfold_max", "unfold_min", "setitem_on_new_score") and not res[1]:
                         o.add("len-indexing-iteration-disagree-after:" + name, where=where)
                         break
@@ -425,8 +699,18 @@ def oracle(spec):
                 break
             now = score_fingerprint(score)
             if now != fp_s:
-                o.add("score-modified-by:" + name, where=where, first_difference=diff_fp(fp_s, now)[:400])
-                break
+                # does the difference consist of added Segment objects only (and of what exists only because of them)?
+                only_segments = score_fingerprint(score, skip_segments=True) == fp_s_noseg
+                if only_segments and name in SEGMENT_OPS:
+                    # the registered finding: report it once, then go on with the Segments as part of the argument
+                    if not segments_reported:
+                        o.add("score-modified-by:" + name, where=where, first_difference=diff_fp(fp_s, now)[:400], only_segments_added=True)
+                        segments_reported = True
+                    fp_s = now
+                    results.clear()  # views of the argument (pretty, iter_all) now show the Segment objects as well
+                else:
+                    o.add("score-modified-by:" + name, where=where, first_difference=diff_fp(fp_s, now)[:400], only_segments_added=only_segments)
+                    break
             nowp = perf_fingerprint(perf)
             if nowp != fp_p:
                 o.add("performance-modified-by:" + name, where=where, first_difference=diff_fp(fp_p, nowp)[:400])
@@ -436,9 +720,19 @@ def oracle(spec):
                 o.add("performed-part-argument-modified-by:" + name, where=where, first_difference=diff_fp(fp_l, nowl)[:400])
                 break
             if repr(alignment) != fp_al:
-                o.add("alignment-modified-by:" + name, where=where)
-                break
-    exporters = kinds & {"musicxml", "score_midi", "save_match", "perf_midi", "loose_midi"}
+                # the registered finding: every score_id got the suffix "-1" and nothing else changed
+                suffix_only = (alignment is not None and len(alignment) == len(alignment0)
+                               and all(set(x) == set(y) and all(x[k] == (y[k] + "-1" if k == "score_id" else y[k]) for k in y) for x, y in zip(alignment, alignment0)))
+                if not suffix_only or not alignment_reported:
+                    o.add("alignment-modified-by:" + name, where=where, only_score_id_suffix_added=suffix_only)
+                if not suffix_only:
+                    break
+                alignment_reported = True
+                # undo the known damage (the renamed ids match no note of the score any more) and go on
+                alignment[:] = [dict(x) for x in alignment0]
+    o.cls("segments-finding-passed-and-history-continued", segments_reported)
+    exporters = kinds & {"musicxml", "score_midi", "save_match", "perf_midi", "loose_midi", "musicxml_arg", "score_midi_arg", "save_mei", "save_kern", "save_wav",
+                         "save_match_args", "perf_wav", "perf_midi_arg"}
     live2 = sum(1 for x in spec["ops"] if x[0] == "iter_new") >= 2 or sum(1 for x in spec["ops"] if x[0] == "piter_new") >= 2
     o.nontrivial = (len(exporters) >= 2 and repeated) or live2
     o.cls("two-exporters-and-repeat", len(exporters) >= 2 and repeated)
@@ -452,8 +746,19 @@ def oracle(spec):
 
 
 def known_segments(spec, d):
-    """Path computation registers Segment objects in the part it is given (C09 finding)."""
-    return d.kind.startswith("score-modified-by:unfold") or d.kind == "score-modified-by:iter_unfolded" or d.kind == "score-modified-by:save_match"
+    """Path computation registers Segment objects in the part it is given (C09 finding).  Only when the whole
+    difference consists of added Segment objects: anything else an unfolding entry point does to its argument is reported."""
+    return d.kind in tuple("score-modified-by:" + n for n in SEGMENT_OPS) and d["detail"].get("only_segments_added") is True
+
+
+def known_save_kern(spec, d):
+    """save_kern works on the argument itself: fill_rests on a Part, merge_parts (which consumes its input) on a Score."""
+    return d.kind == "score-modified-by:save_kern"
+
+
+def known_alignment(spec, d):
+    """matchfile_from_alignment(assume_part_unfolded=False) lets unfold_part_alignment append "-1" to every score_id of the caller's alignment."""
+    return d.kind in ("alignment-modified-by:save_match", "alignment-modified-by:save_match_args") and d["detail"].get("only_score_id_suffix_added") is True
 
 
 SUBCHECKS = [
@@ -463,8 +768,14 @@ SUBCHECKS = [
         strategy=lambda tier: history(tier),
         budget={"quick": 200, "thorough": 1500},
         rule="generated score (1-3 parts, optional group, optional repeat) + aligned performance; generated histories of 2-10 (thorough 22) read-only operations incl. iterator creation/steps; identity fingerprint compared after every step, repeated calls compared; non-trivial = >=2 different exporters and a repeated call, or >=2 live iterators",
-        known={"segments-left-in-argument": known_segments},
-        floors={"two-live-iterators": 0.01, "repeated-call": 0.05},
+        known={"segments-left-in-argument": known_segments, "save-kern-works-on-its-argument": known_save_kern,
+               "save-match-renames-alignment-score-ids": known_alignment},
+        floors={"two-live-iterators": 0.01, "repeated-call": 0.05,
+                # shapes added by the generator audit
+                "start-from:deepcopy": 0.04, "start-from:transposed": 0.04, "start-from:unfolded": 0.02, "start-from:musicxml-loaded": 0.04,
+                "op:array_views": 0.02, "op:musicxml_arg": 0.03, "op:save_match_args": 0.02, "op:save_mei": 0.01, "op:save_wav": 0.02,
+                "op:perf_pianoroll": 0.02, "op:estimators_other_args": 0.03, "op:contains_zip": 0.01,
+                "segments-finding-passed-and-history-continued": 0.05},
         time_budget={"quick": 120.0, "thorough": 2400.0},
     ),
 ]
